@@ -23,7 +23,7 @@ def record(case):
     blocks = sim.blocks
     fmap = indexrun.flush_map(case['flush'])
     wparams = dict(reorg_limit=case.get('limit', 200), activation=ACT,
-                   prefetch=case.get('prefetch', 100))
+                   prefetch=case.get('prefetch', 100), small_files=case.get('small_files', False))
     m0 = world.Machine()
     marks = []
     restart_at = case.get('restart_at')
@@ -40,11 +40,15 @@ def record(case):
             m0.log.clear()
         snapshot = m0.snapshot()
         w = world.World(m0, **wparams)
-        w.daemon.set_chain(blocks)
+        grow_at = case.get('grow_at')
+        w.daemon.set_chain(blocks if not grow_at else blocks[:grow_at + 1])
         w.flush_schedule = fmap
         w.on_full_flush = lambda w: marks.append((len(m0.log), w.db.state.height))
         w.start_sync()
         w.run_until_caught_up()
+        if grow_at:
+            w.daemon.set_chain(blocks)
+            w.poll()
         ref_final = observe.ref_at(blocks, len(blocks) - 1, ACT)
         obs_final = observe.observe(w, ref_final, what=crashrun.WHAT)
         bad = observe.compare(obs_final, ref_final, crashrun.WHAT)
@@ -150,6 +154,17 @@ def cases_for(tier):
                 cases.append(dict(recipes=rs, flush=fl, prefetch=pf))
         for restart_at in (2, 3):
             cases.append(dict(recipes=rs, flush=('HF-' * n)[:n], prefetch=100, restart_at=restart_at))
+        # the last block before the clean restart got a history-only flush, so the shutdown /
+        # catch-up flush that follows has no new history to write
+        cases.append(dict(recipes=rs, flush=('HF-' * n)[:n], prefetch=100, restart_at=4))
+        cases.append(dict(recipes=rs, flush=('-H' + 'F' * n)[:n], prefetch=100, restart_at=2))
+        # no restart: the daemon is first at height g (catch-up, databases re-opened for
+        # serving), then grows; crash points in the second part
+        cases.append(dict(recipes=rs, flush=('-H' + 'FH' * n)[:n], prefetch=100, grow_at=2))
+        cases.append(dict(recipes=rs, flush=('HF-H' + 'F' * n)[:n], prefetch=100, grow_at=4))
+        # flat files split into tiny physical files (writes straddle file boundaries)
+        cases.append(dict(recipes=rs, flush=('HFH' * n)[:n], prefetch=100, small_files=True))
+        cases.append(dict(recipes=rs, flush=('-F' * n)[:n], prefetch=100, small_files=True, restart_at=3))
     return cases
 
 
